@@ -924,6 +924,34 @@ public:
 };
 
 
+/// Resolves a directory once, so that entries which are symbolic links to the
+/// directory itself or to one of its ancestors can be left out of its listing
+/// (following them would never end).
+class AncestorLinkFilter {
+  std::string directoryPath;
+
+public:
+  explicit AncestorLinkFilter(StringRef path) : directoryPath(path.str()) {
+    // The test compares resolved paths, so resolve the directory as well: it
+    // may be relative or be reached through links.
+    SmallString<256> resolvedDirectory;
+    if (!llvm::sys::fs::real_path(path, resolvedDirectory)) {
+      directoryPath = resolvedDirectory.str().str();
+    }
+  }
+
+  bool isLinkToAncestor(const llvm::sys::fs::directory_iterator& it) const {
+    if (!llvm::sys::fs::is_symlink_file(*it->status())) {
+      return false;
+    }
+    SmallString<256> resolvedPath;
+    if (llvm::sys::fs::real_path(it->path(), resolvedPath)) {
+      return false;
+    }
+    return pathIsPrefixedByPath(directoryPath, resolvedPath.str().str());
+  }
+};
+
 /// This task is responsible for computing the lists of files in directories.
 class DirectoryContentsTask : public Task {
   std::string path;
@@ -1022,17 +1050,13 @@ class DirectoryContentsTask : public Task {
     // Exit the loop if we encounter any errors, to prevent infinitely looping
     // over an invalid directory in some circumstances. rdar://101717159
     std::error_code ec;
+    AncestorLinkFilter ancestorLinks(path);
     for (auto it = llvm::sys::fs::directory_iterator(path, ec, /*follow_symlinks */false),
          end = llvm::sys::fs::directory_iterator(); it != end && !ec;
          it = it.increment(ec)) {
       // If this is a symlink to a parent directory, exclude it from results so we don't get stuck in a loop.
-      if (llvm::sys::fs::is_symlink_file(*it->status())) {
-        SmallString<256> resolvedPath;
-        if (!llvm::sys::fs::real_path(it->path(), resolvedPath)) {
-          if (pathIsPrefixedByPath(path.str(), resolvedPath.str().str())) {
-            continue;
-          }
-        }
+      if (ancestorLinks.isLinkToAncestor(it)) {
+        continue;
       }
       filenames.push_back(llvm::sys::path::filename(it->path()));
     }
@@ -1192,9 +1216,14 @@ class FilteredDirectoryContentsTask : public Task {
     // Exit the loop if we encounter any errors, to prevent infinitely looping
     // over an invalid directory in some circumstances. rdar://101717159
     std::error_code ec;
+    AncestorLinkFilter ancestorLinks(path);
     for (auto it = llvm::sys::fs::directory_iterator(path, ec, /*follow_symlinks=*/false),
          end = llvm::sys::fs::directory_iterator(); it != end && !ec;
          it = it.increment(ec)) {
+      // As in the unfiltered listing, leave out links to a parent directory.
+      if (ancestorLinks.isLinkToAncestor(it)) {
+        continue;
+      }
       std::string filename = llvm::sys::path::filename(it->path());
       bool excluded = false;
       for (auto pattern : filterStrings) {
